@@ -268,6 +268,42 @@ func HarnessC17InstallKind() {
 	zz.Assert("installed-at-the-satisfying-tag", src == zzDep+":v1.2.0")
 }
 
+// HarnessC17UpgradeNoVersion: with upgrades enabled, an installed dependency
+// that is not referenced by a semantic version - pinned by digest, or at a tag
+// like "latest" - while its parent asks for a version range. There is no
+// "not older" for it; whatever the resolver decides, it decides it without
+// panicking, and it never moves the package to a version outside the range.
+//
+//gosym:harness panics
+//gosym:cover by-digest by-plain-tag
+func HarnessC17UpgradeNoVersion() {
+	s := zzStore()
+	byDigest := zz.Bool("installed.byDigest")
+	ref, ver := zzDep+":latest", "latest"
+	if byDigest {
+		zz.Cover("by-digest")
+		ref, ver = zzDep+"@"+zzDigest, zzDigest
+	} else {
+		zz.Cover("by-plain-tag")
+	}
+	lock := &v1beta1.Lock{ObjectMeta: metav1.ObjectMeta{Name: lockName}}
+	lock.Packages = []v1beta1.LockPackage{
+		{Name: "parent0-rev", Type: ptr.To(v1beta1.ProviderPackageType), Source: zzParentA, Version: "v1.0.0",
+			Dependencies: []v1beta1.Dependency{{Package: zzDep, Type: ptr.To(v1beta1.ProviderPackageType), Constraints: ">=v2.0.0"}}},
+		{Name: "pkg-b-rev", Type: ptr.To(v1beta1.ProviderPackageType), Source: zzDep, Version: ver},
+	}
+	s.Put(lock)
+	p := &v1.Provider{ObjectMeta: metav1.ObjectMeta{Name: "org-pkg-b"}}
+	p.Spec.Package = ref
+	s.Put(p)
+	r := zzReconciler(s, []string{"v1.0.0", "v2.1.0"}, true, zz.Bool("downgradesEnabled"))
+	_, err := r.Reconcile(context.Background(), reconcile.Request{NamespacedName: types.NamespacedName{Name: lockName}})
+	got, exists := zzInstalled(s)
+	zz.Assert("installed-package-still-exists", exists)
+	zz.Assert("never-moves-to-a-violating-version", got == ref || got == zzDep+":v2.1.0")
+	zz.Observe("outcome", err != nil, got)
+}
+
 // HarnessC17Upgrade: with upgrades enabled, an installed dependency whose
 // version in the lock violates a parent's constraint is moved to the lowest
 // tag that is not older than the installed version and satisfies every
